@@ -7,7 +7,7 @@ from .. import kernel
 from ..cfg import CFG
 from ..match import calls, expected_term, returns, term_of
 from ..model import own_nodes, parents
-from ..terms import show
+from ..terms import walk_term, show
 
 MI = 'outrank.algorithms.feature_ranking.ranking_mi_numba'
 KERNEL_FUNCS = ['numba_unique', 'compute_conditional_entropy', 'compute_entropies', 'stratified_subsampling', 'mutual_info_estimator_numba']
@@ -382,7 +382,7 @@ def self_pair_test(repo, chk, oid):
             return
         # alternative shape: the flag handed to compute_entropies is `flag and not <identity predicate>`
         ce = [c for c in calls(fn) if m.dotted(c.func) == f'{MI}.compute_entropies']
-        arg5 = ce[0].args[5] if ce and len(ce[0].args) > 5 else None
+        arg5 = (ce[0].args[5] if len(ce[0].args) > 5 else next((k.value for k in ce[0].keywords if k.arg == 'cardinality_correction'), None)) if ce else None
         t = term_of(fn, arg5, {Xp: ('role', 'X'), Yp: ('role', 'Y')}, inline=True) if arg5 is not None else None
         if t is not None and t[0] == 'and' and ('name', flag) in t[1] and len(t[1]) == 2:
             other = [x for x in t[1] if x != ('name', flag)][0]
@@ -407,6 +407,9 @@ def self_pair_test(repo, chk, oid):
             chk.bad(oid + 'b', 'identity-test', fn.site(s), ast.unparse(s), f'the correction flag is changed other than by `if <identical>: {flag} = False`: the correction no longer applies exactly to non-identical pairs')
             continue
         t = term_of(fn, g.test, {Xp: ('role', 'X'), Yp: ('role', 'Y')}, inline=True)
+        # `if flag and <identical>: flag = False` switches the flag off in exactly the same cases as `if <identical>: flag = False`
+        if t[0] == 'and' and ('name', flag) in t[1] and len(t[1]) == 2:
+            t = [x for x in t[1] if x != ('name', flag)][0]
         if is_exact_identity(t, E, repo):
             chk.ok(oid + 'a', 'identity-test', fn.site(g), ast.unparse(g.test), 'exact element-wise identity test (no cancelling reduction, no arithmetic on codes that could cancel)')
             continue
@@ -419,7 +422,14 @@ def self_pair_test(repo, chk, oid):
         elif any(isinstance(x, tuple) and x and x[0] == 'cmp' and x[1] in ('<', '<=') for x in _walk_terms(t)):
             chk.bad(oid + 'a', 'identity-test', fn.site(g), ast.unparse(g.test), 'the self-pair test uses an inequality / tolerance: non-identical vectors are treated as a self-pair')
         else:
-            chk.unsure(oid + 'a', 'identity-test', fn.site(g), ast.unparse(g.test), f'cannot classify the self-pair predicate as exact or inexact: {txt[:140]}')
+            why_partial = None
+            for x in _walk_terms(t):
+                if isinstance(x, tuple) and len(x) >= 2 and x[0] == 'call' and isinstance(x[1], tuple) and x[1][0] == 'lib' and str(x[1][1]).startswith(m.name + '.'):
+                    why_partial = why_partial or partial_equality_helper(m.funcs.get(str(x[1][1]).split('.')[-1]))
+            if why_partial:
+                chk.bad(oid + 'a', 'identity-test', fn.site(g), ast.unparse(g.test), why_partial)
+            else:
+                chk.unsure(oid + 'a', 'identity-test', fn.site(g), ast.unparse(g.test), f'cannot classify the self-pair predicate as exact or inexact: {txt[:140]}')
 
 
 def _walk_terms(t):
@@ -655,6 +665,10 @@ def elementwise_equality_helper(f):
         return False
     seen_loop = False
     for st in body[:-1]:
+        # a local bound to a length (num_rows = len(a)): resolved by the inlining term builder
+        if isinstance(st, ast.Assign) and len(st.targets) == 1 and isinstance(st.targets[0], ast.Name) and st.targets[0].id not in (a, b) and \
+                term_of(f, st.value, inline=True) in (E(f'len({a})'), E(f'len({b})'), E(f'{a}.size'), E(f'{b}.size')):
+            continue
         ret_false = lambda blk: len(blk) == 1 and isinstance(blk[0], ast.Return) and isinstance(blk[0].value, ast.Constant) and blk[0].value.value is False
         if isinstance(st, ast.If) and not st.orelse and ret_false(st.body):
             t = term_of(f, st.test, inline=True)
@@ -683,6 +697,27 @@ def elementwise_equality_helper(f):
             return False
         return False
     return seen_loop
+
+
+def partial_equality_helper(f):
+    """reason when f(a, b) compares the two vectors position by position (`if a[i] != b[i]: return False` .. `return True`) but over a range that
+    does not cover every position (range(len(a) - 1), range(1, len(a)), a step): rows outside the range are never compared"""
+    if f is None or len(f.params) != 2:
+        return None
+    a, b = f.params
+    m = f.module
+    E = lambda src: expected_term(m, src)
+    full = (E(f'range(len({a}))'), E(f'range(len({b}))'), E(f'numba.prange(len({a}))'), E(f'range(0, len({a}))'))
+    for st in own_nodes(f.node):
+        if isinstance(st, ast.For) and isinstance(st.target, ast.Name) and len(st.body) == 1 and isinstance(st.body[0], ast.If):
+            i = st.target.id
+            inner = st.body[0]
+            if term_of(f, inner.test, inline=True) in (E(f'{a}[{i}] != {b}[{i}]'), E(f'{b}[{i}] != {a}[{i}]')) and len(inner.body) == 1 and isinstance(inner.body[0], ast.Return) \
+                    and isinstance(inner.body[0].value, ast.Constant) and inner.body[0].value.value is False:
+                it = term_of(f, st.iter, inline=True)
+                if it not in full and it[0] == 'call' and it[1] in (('name', 'range'), ('lib', 'numba.prange')) and any(x in (E(f'len({a})'), E(f'len({b})')) for x in walk_term(it)):
+                    return f'{f.name} compares the vectors over {ast.unparse(st.iter)} only: positions outside that range are never compared, so two vectors that differ there are taken for a feature scored against itself'
+    return None
 
 
 def is_exact_identity(t, E, repo):
